@@ -110,3 +110,22 @@ func genKey(r *rand.Rand, nkeys int) []byte {
 	}
 	return alphabet[r.Intn(nkeys)]
 }
+
+// handOver returns a private copy of b for ONE call into the code under test; the caller scribbles
+// over it right after the call (scribbleAll), as a client that reuses its buffers does: whatever the
+// callee keeps must be its own copy.
+func handOver(b []byte) []byte {
+	if b == nil {
+		return nil
+	}
+	return append(make([]byte, 0, len(b)+8), b...)
+}
+
+func scribbleAll(bs ...[]byte) {
+	for _, b := range bs {
+		b = b[:cap(b)]
+		for i := range b {
+			b[i] = 0xEE
+		}
+	}
+}
